@@ -240,7 +240,7 @@ func solvePath(ps *PathScript, workDir string, perQueryMs int, onlySolver string
 		// an obligation nobody decides in the time limit gets one more round with three times the limit before it is
 		// reported (timeouts under machine load must not turn into alarms); known findings and covers are exempt
 		rounds := []int{perQueryMs, 3 * perQueryMs}
-		if knownObls[o.Name] || o.Kind == "cover" || retryOff {
+		if knownObls[o.Name] || o.Kind == "cover" || retryOff || ps.Slow {
 			rounds = rounds[:1]
 		}
 		for _, roundMs := range rounds {
